@@ -772,7 +772,12 @@ def concretise(op, p, st):
             parts.append(seg('spec', {'valid': 'EPSG900913', 'othergrid': 'EPSG4326'}))
         if op == 'kml_init':
             return '/kml/' + '/'.join(parts) + seg('slash', {'valid': '', 'slash': '/'}), q, hdr
-        z, x, y = zxy()
+        # KML documents of every level are valid addresses - the last level of the grid (19) included
+        # (chosen by the classes of the vector, so that the benign and the hostile rendering of a vector ask for the same
+        # document: the last level for vectors without URL headers, whose document has no links that carry them)
+        last = op == 'kml_doc' and g('x', 'valid') == 'valid' and g('y', 'valid') == 'valid' and \
+            all(g(k, 'absent') == 'absent' for k in ('h_host', 'h_proto', 'h_script'))
+        z, x, y = zxy(zv='19') if last else zxy()
         ext = 'kml' if op == 'kml_doc' else seg('format', {'png': 'png', 'jpeg': 'jpeg'})
         pre = {'tms': '/tms/1.0.0/', 'tiles': '/tiles/', 'kml': '/kml/'}[svc]
         if svc == 'tms' and g('tmsversion', 'valid') == 'absent':
